@@ -211,8 +211,12 @@ class HTTP(BaseComponent):
 
     @handler('disconnect')
     def _on_disconnect(self, sock):
+        # Nothing of a connection that is gone is kept: neither the request
+        # being answered nor the parser of a request still being received.
         if sock in self._clients:
             del self._clients[sock]
+        if sock in self._buffers:
+            del self._buffers[sock]
 
     @handler('read')  # noqa
     def _on_read(self, sock, data):
